@@ -206,7 +206,7 @@ func TestC08(t *testing.T) {
 	o.DagPct = 30
 	rapid.Check(t, func(t *rapid.T) {
 		g := gen.Graph(t, o)
-		g, refused := gen.Break(t, g, 40, 6)
+		g, refused := gen.Break(t, g, 70, 8)
 		c := c08Case{Graph: g, Refused: refused, Continue: rapid.Bool().Draw(t, "continue")}
 		f, info := oracleC08(c)
 		r.Eval()
